@@ -15,10 +15,15 @@ Init == \E f \in NoteLists, c \in CtlLists, p \in 0..MaxT : ShiftInit([notes |->
 Next == ShiftNext
 Spec == Init /\ [][Next]_hvars
 
+(* a second part for the same performance: the same notes one grid step later *)
+Later == [k \in 1..Len(sc.notes) |-> [sc.notes[k] EXCEPT !.on = @ + 1, !.off = @ + 1]]
+PartsStayTogether == StayTogether(<<sc.notes, Later>>) /\ StayTogether(<<Later, sc.notes>>)
+
 Report ==
    IF Done
    THEN PrintT(ToJson([notes |-> sc.notes, ctrls |-> sc.ctrls, progs |-> sc.progs, start |-> Start,
                        new_notes |-> notes, new_ctrls |-> ctrls, new_progs |-> progs,
-                       force |-> [u \in 1..(Horizon + 1) |-> InForce(sc.ctrls, u - 1 + Start)]]))
+                       force |-> [u \in 1..(Horizon + 1) |-> InForce(sc.ctrls, u - 1 + Start)],
+                       together |-> ShiftedTogether(<<Later, sc.notes>>)]))
    ELSE TRUE
 =============================================================================
